@@ -9,6 +9,8 @@ import (
 	"encoding/json"
 	"fmt"
 	"strings"
+	"sync"
+	"sync/atomic"
 
 	tally "github.com/uber-go/tally/v4"
 )
@@ -199,6 +201,22 @@ func init() {
 				}
 				return
 			}
+			var sp struct {
+				Storm  bool `json:"close_storm"`
+				Cached bool `json:"cached"`
+				G      int  `json:"goroutines"`
+				Rounds int  `json:"rounds"`
+			}
+			if json.Unmarshal(ctx.Replay, &sp) == nil && sp.Storm {
+				ctx.Case(sp, "", "concurrent-close-of-one-subscope", "")
+				for k := 0; k < 10; k++ {
+					if f := c07CloseStorm(sp.Rounds, sp.G, sp.Cached); f != "" {
+						ctx.Fail("closing_twice_is_harmless_no_panic", f, sp, nil)
+						return
+					}
+				}
+				return
+			}
 			var c regCase
 			if err := json.Unmarshal(ctx.Replay, &c); err != nil {
 				fatal(err)
@@ -240,7 +258,83 @@ func init() {
 				ctx.Fail("scopes_derived_from_a_closed_scope_are_inert", f, sc, nil)
 			}
 		}
+		// Close called on one subscope by several goroutines at the same moment (uncontrolled)
+		for k := 0; k < ctx.N(4, 60); k++ {
+			cs := map[string]interface{}{"close_storm": true, "cached": k%2 == 1, "goroutines": 4 + 4*(k/2%2), "rounds": 1500}
+			f := c07CloseStorm(1500, 4+4*(k/2%2), k%2 == 1)
+			ctx.Case(cs, "", "concurrent-close-of-one-subscope", "")
+			if f != "" {
+				ctx.Fail("closing_twice_is_harmless_no_panic", f, cs, nil)
+				break
+			}
+		}
 	}
+}
+
+// c07CloseStorm: "closing twice is harmless ... none of this can panic", also when the Close calls on
+// one subscope come from several goroutines at the same moment (the test-and-set inside Close has no
+// yield point, so only the runtime's own scheduling can overlap two of them). Each round: record on a
+// fresh subscope, G goroutines behind a spin barrier call Close on it, one report pass; nothing may
+// panic and what was recorded must be delivered once.
+func c07CloseStorm(rounds, G int, cached bool) string {
+	log := &Log{}
+	opts := tally.ScopeOptions{OmitCardinalityMetrics: true}
+	if cached {
+		opts.CachedReporter = &RecCached{L: log, Caps: caps{true, true}}
+	} else {
+		opts.Reporter = &RecReporter{L: log, Caps: caps{true, true}}
+	}
+	root, closer := tally.VerifNewRootScope(opts, 0, 2)
+	defer closer.Close()
+	for r := 0; r < rounds; r++ {
+		sub := root.Tagged(map[string]string{"round": fmt.Sprint(r)})
+		sub.Counter("c").Inc(3)
+		cl, ok := sub.(interface{ Close() error })
+		if !ok {
+			return "a subscope cannot be closed"
+		}
+		var arrived int32
+		var wg sync.WaitGroup
+		var mu sync.Mutex
+		panicked := ""
+		for g := 0; g < G; g++ {
+			wg.Add(1)
+			go func() {
+				defer wg.Done()
+				defer func() {
+					if p := recover(); p != nil {
+						mu.Lock()
+						panicked = fmt.Sprint(p)
+						mu.Unlock()
+					}
+				}()
+				atomic.AddInt32(&arrived, 1)
+				for atomic.LoadInt32(&arrived) < int32(G) {
+				}
+				cl.Close()
+			}()
+		}
+		wg.Wait()
+		if panicked != "" {
+			return fmt.Sprintf("round %d: %d goroutines called Close on the same subscope at the same moment: panic: %s", r, G, panicked)
+		}
+		if r%64 == 63 || r == rounds-1 {
+			tally.VerifReportOnce(root)
+		}
+	}
+	var sum int64
+	for _, e := range log.Snapshot() {
+		switch e.K {
+		case 1:
+			sum += e.I[0]
+		case 21:
+			sum += e.I[1]
+		}
+	}
+	if sum != int64(3*rounds) {
+		return fmt.Sprintf("%d subscopes were closed by %d goroutines at once each after recording 3: %d delivered in total, expected %d", rounds, G, sum, 3*rounds)
+	}
+	return ""
 }
 
 // c07InertCase: a parent (SubScope or Tagged of the root), children derived from it before its
